@@ -4,6 +4,7 @@ import (
 	"fmt"
 	"go/ast"
 	"go/types"
+	"sort"
 	"strings"
 
 	"golang.org/x/tools/go/ssa"
@@ -38,6 +39,8 @@ func runC17(c *Ctx) {
 	lockPairing(c)
 	singleSection(c)
 	driverStateRule(c, "driver-keeps-no-state", driverMethods, o)
+	poolDisciplineRule(c)
+	lazyInitRule(c)
 }
 
 // hiddenState reports package-level variables touched from the entries that are not init-only.
@@ -244,6 +247,8 @@ func runC18(c *Ctx) {
 	c.rule("published-default", "a package-level object stored into the value a constructor returns must be of a type no module function mutates")
 	c.rule("option-writes-instance-only", "functions returning ReaderOption/WriterOption closures write no package-level variable")
 	c.rule("per-call-no-receiver-write", "the *WithOptions methods do not write memory reachable from their receiver and do not store the per-call options into it")
+	c.rule("option-reads-arguments-only", "functions returning ReaderOption/WriterOption closures (and the closures) read no package-level variable that is written after package initialisation (driver registries, counters): an instance's configuration is a function of the defaults and of its own options")
+	c.rule("constructor-leaves-options-alone", "New does not append to or write through its variadic options parameter: the slice belongs to the caller (New(all[:k]...) shares all's backing array)")
 	c.rule("per-call-no-argument-write", "the *WithOptions methods (and what they call) do not write memory reachable from the per-call options argument: the value is the caller's and may be reused for another call or instance")
 	c.rule("per-call-reads-argument", "inside a *WithOptions method a read of the receiver's Options is the fallback branch of an emptiness test of the same field of the per-call argument; convenience methods pass the receiver's options to their *WithOptions sibling")
 	c.notDecided("that the defaults equal the documented values")
@@ -268,8 +273,47 @@ func runC18(c *Ctx) {
 		}
 		c.check(len(gw) == 0, "option-writes-instance-only", name, c.P.Pos(fn.Pos()), "writes no package-level variable",
 			fmt.Sprintf("the option closure writes package-level state %v: configuring one instance changes the defaults of every other", gw))
+		// … and what the option does must not depend on package-level state that can change after
+		// initialisation (registries): the configuration is a function of defaults and arguments only
+		var gr []string
+		collect := func(f *ssa.Function) {
+			if ss := o.sums[f]; ss != nil {
+				for g := range ss.globRead {
+					if cls := classifyGlobalMutability(c, g); cls != "init-only" {
+						gr = append(gr, globalName(g)+" ("+cls+")")
+					}
+				}
+			}
+		}
+		collect(fn)
+		for _, an := range fn.AnonFuncs {
+			collect(an)
+		}
+		sort.Strings(gr)
+		c.check(len(gr) == 0, "option-reads-arguments-only", name, c.P.Pos(fn.Pos()), "reads no mutable package-level state",
+			fmt.Sprintf("the option's effect depends on package-level state that changes after initialisation %v: the same constructor call configures instances differently depending on what else ran before", gr))
 	}
 	c.floor("option-writes-instance-only", 8, "five writer options and five reader options")
+	for _, name := range []string{"reader.New", "writer.New"} {
+		fn := c.P.Func(name)
+		if fn == nil {
+			c.undecided("constructor-leaves-options-alone", "anchor:"+name, "-", "constructor not found")
+			continue
+		}
+		var w []mutation
+		if ss := o.sums[fn]; ss != nil {
+			for _, m := range ss.muts {
+				if m.param == 0 {
+					w = append(w, m)
+				}
+			}
+		}
+		if len(w) > 0 {
+			c.bad("constructor-leaves-options-alone", name, c.P.Pos(w[0].pos), describeMuts(c, name, "options list", w))
+		} else {
+			c.ok("constructor-leaves-options-alone", name, c.P.Pos(fn.Pos()), "the options list is only read")
+		}
+	}
 	// D3
 	perCall := []string{"writer.(*Writer).WriteStreamWithOptions", "writer.(*Writer).WriteFileWithOptions", "writer.(*Writer).StoreWithOptions",
 		"reader.(*Reader).ParseStreamWithOptions", "reader.(*Reader).ParseFileWithOptions", "reader.(*Reader).RetrieveWithOptions"}
@@ -404,4 +448,46 @@ func perCallReads(c *Ctx, name string) {
 		c.okTrivial(R, name, c.P.Pos(d.fd.Pos()), "no read through the receiver's options")
 	}
 	_ = typeutil.Callee
+}
+
+// classifyGlobalMutability: "init-only" when the variable (and what it refers to) is written only
+// during package initialisation; sync primitives count as mutable state (a sync.Map registry is
+// exactly the kind of state an option must not consult).
+func classifyGlobalMutability(c *Ctx, g *ssa.Global) string {
+	t := g.Type().(*types.Pointer).Elem()
+	ts := types.TypeString(t, nil)
+	if ts == "sync.Once" || ts == "sync.Mutex" || ts == "sync.RWMutex" {
+		return "init-only"
+	}
+	if syncTypes[ts] {
+		// a concurrent container: mutable when any non-init function calls a mutating method on it
+		for _, fn := range c.P.Funcs {
+			if isInitFn(fn) {
+				continue
+			}
+			for _, b := range fn.Blocks {
+				for _, ins := range b.Instrs {
+					call, ok := ins.(ssa.CallInstruction)
+					if !ok {
+						continue
+					}
+					sc := call.Common().StaticCallee()
+					if sc == nil || len(call.Common().Args) == 0 || call.Common().Args[0] != ssa.Value(g) {
+						continue
+					}
+					switch sc.Name() {
+					case "Store", "Delete", "Swap", "LoadOrStore", "LoadAndDelete", "CompareAndSwap", "CompareAndDelete", "Add", "Clear":
+						return "registry written by " + fnName(fn)
+					}
+				}
+			}
+		}
+		return "init-only"
+	}
+	for _, a := range globalAccesses(c.P, g) {
+		if a.write && !isInitFn(a.fn) {
+			return "written by " + fnName(a.fn)
+		}
+	}
+	return "init-only"
 }
